@@ -127,6 +127,7 @@ where
     };
     assert!(bytes <= SB * 8, "GRID ERROR: scratch arena too small for the declared size");
     let mut arena = Buf::<SB>::sym();
+    set_arena(arena.bytes().as_ptr());
     {
         let scratch: &mut Scratch<BE> = Scratch::<BE>::from_bytes(&mut arena.bytes_mut()[..bytes]);
         let mut r = r1.vec_mut(NN, 2, S, S);
